@@ -27,6 +27,7 @@ type Ctx struct {
 	ExtraEnv    []string
 	rel         *goan.Rel
 	evals       map[string]*evalCache
+	linears     map[string]*tmpl.Linear
 }
 
 func NewCtx(r *core.Run) *Ctx {
